@@ -436,6 +436,21 @@ def _probes():
     add("is_hessenberg", hb.is_hessenberg, lambda c: [Q(c["Sq"])])
     add("check_hessenberg", hb.check_hessenberg, lambda c: [Q(c["Sq"])])
     add("quaternion_schur", lambda A: sc.quaternion_schur(A, max_iter=10), lambda c: [Q(c["Sq"])])
+    # matrices that the QR sweep maps onto themselves (cyclic shifts, scaled): stagnation / exceptional-shift branches
+    def _shift(c):
+        q_ = c["Sq"].shape[0]
+        return [Q(np.roll(ref.qeye(q_), 1, axis=0) * (1.0 + 0.5 * (c["seed"] % 3)))]
+    for nm_, f_, kw_ in (("quaternion_schur", sc.quaternion_schur, {}),
+                         ("quaternion_schur(wilkinson)", sc.quaternion_schur, {"shift": "wilkinson"}),
+                         ("quaternion_schur_pure", sc.quaternion_schur_pure, {}),
+                         ("quaternion_schur_pure_implicit", sc.quaternion_schur_pure_implicit, {}),
+                         ("quaternion_schur_unified(aed)", sc.quaternion_schur_unified, {"variant": "aed"}),
+                         ("quaternion_schur_unified(ds)", sc.quaternion_schur_unified, {"variant": "ds"}),
+                         ("quaternion_schur_experimental", sc.quaternion_schur_experimental, {})):
+        add(nm_ + "[cyclic shift, 40 sweeps]", (lambda A, f=f_, kw=kw_: f(A, max_iter=40, **kw)), _shift)
+    add("quaternion_schur(40 sweeps)", lambda A: sc.quaternion_schur(A, max_iter=40), lambda c: [Q(c["Sq"])])
+    add("quaternion_schur_pure(40 sweeps)", lambda A: sc.quaternion_schur_pure(A, max_iter=40), lambda c: [Q(c["Sq"])])
+    add("quaternion_schur_unified(aed, 40 sweeps)", lambda A: sc.quaternion_schur_unified(A, variant="aed", max_iter=40), lambda c: [Q(c["Sq"])])
     add("quaternion_schur_pure", lambda A: sc.quaternion_schur_pure(A, max_iter=10), lambda c: [Q(c["Sq"])])
     add("quaternion_schur_pure_implicit", lambda A: sc.quaternion_schur_pure_implicit(A, max_iter=10), lambda c: [Q(c["Sq"])])
     add("quaternion_schur_unified(aed)", lambda A: sc.quaternion_schur_unified(A, variant="aed", max_iter=10), lambda c: [Q(c["Sq"])])
@@ -490,6 +505,11 @@ def _probes():
     return P
 
 
+# entry points that are documented / observed to draw from numpy's GLOBAL generator (reproducible functions of the
+# global seed); every other entry point must neither depend on nor advance the global random state
+RANDOM_PROBES = {"CGNE.compute(prec)", "Hybrid.compute", "RSP.compute", "RSP.compute(spd)", "pass_eff_qsvd", "power_iteration",
+                 "power_iteration_nonhermitian", "rand_qsvd"}
+
 _PROBE_CACHE = {}
 
 
@@ -499,7 +519,7 @@ def probes():
     return _PROBE_CACHE["p"]
 
 
-N_PROBES = 114   # upper bound used by the generator; indices are taken modulo the real table length
+N_PROBES = 124   # upper bound used by the generator; indices are taken modulo the real table length
 
 
 @st.composite
@@ -517,7 +537,7 @@ def mutation_cases(draw, tier):
     H = gen.make_hermitian(draw(gen.qarray(q, q, "generic"))[0])
     # structured variants reach the special-case branches (identity reflectors, zero pivots, early exits)
     struct = draw(st.sampled_from(["dense", "dense", "zero_first_subcolumn", "block_diagonal", "diagonal", "zero_column",
-                                   "already_reduced"]))
+                                   "already_reduced", "permutation"]))
     if struct == "zero_first_subcolumn":
         H[1:, 0] = 0.0
         H[0, 1:] = 0.0
@@ -537,6 +557,12 @@ def mutation_cases(draw, tier):
     elif struct == "zero_column":
         A[:, draw(st.integers(0, k - 1))] = 0.0
         Sq[:, draw(st.integers(0, q - 1))] = 0.0
+    elif struct == "permutation":
+        # signed permutation times basis units (cyclic shifts included): the QR sweep maps such a matrix onto itself, so
+        # stagnation / exceptional-shift branches are reached
+        Sq = draw(gen.exact_unitary(q))
+        if draw(st.booleans()):
+            Sq = np.roll(ref.qeye(q), 1, axis=0)
     elif struct == "already_reduced":
         for i in range(q):
             for j in range(q):
@@ -679,6 +705,7 @@ def check_mutation(case):
     args = build(case)
     h0 = _hash_args(args)
     np.random.seed(case["seed"])
+    rs0 = np.random.get_state()
     try:
         with contextlib.redirect_stdout(io.StringIO()):
             r1 = fn(*args)
@@ -686,6 +713,11 @@ def check_mutation(case):
         out.label("raised:" + type(e).__name__)
         out.true(f"{name}:arguments untouched (even when raising)", _hash_args(args) == h0, "argument modified before raising")
         return out
+    if name not in RANDOM_PROBES:
+        rs1 = np.random.get_state()
+        out.true(f"{name}:does not draw from the global random generator (deterministic routine)",
+                 rs0[2] == rs1[2] and np.array_equal(rs0[1], rs1[1]),
+                 "the call advanced numpy's global random state: its result depends on hidden global state")
     c1 = canon(r1)       # taken NOW: a result that aliases state shared with later calls must not change afterwards
     out.true(f"{name}:caller's arrays bit-identical after the call", _hash_args(args) == h0,
              "an array argument was modified in place")
